@@ -183,6 +183,7 @@ def rules(ck, P):
 
     # ---------------- shared MVT rules
     mvt.table_fidelity(ck, P)
+    mvt.repeated_kept(ck, P)
     mvt.pbf_rules(ck, P)
     mvt.feature_write_rule(ck, P)
     mvt.vtlp_rules(ck, P)
